@@ -164,11 +164,12 @@ Proof.
     assert (H : match exec assert_wit_cfg (init assert_wit_cfg assert_wit_input) (removelast assert_wit_evs) with
                 | Some s0 => match step assert_wit_cfg s0 (last assert_wit_evs (Ev 0 (mkCh false false 0))) with AssertFail => true | _ => false end
                 | None => false end = true) by (vm_compute; reflexivity).
-    intros E. rewrite E in H. destruct (step assert_wit_cfg s _); try discriminate. reflexivity.
+    intros E. rewrite E in H. clear E.
+    destruct (step assert_wit_cfg s _); try (exfalso; discriminate H). reflexivity.
   - exfalso.
     assert (H : match exec assert_wit_cfg (init assert_wit_cfg assert_wit_input) (removelast assert_wit_evs) with
                 | Some _ => true | None => false end = true) by (vm_compute; reflexivity).
-    rewrite E in H. discriminate.
+    rewrite E in H. discriminate H.
 Qed.
 
 Lemma pb_linearizable_refuted_lemma :
@@ -181,9 +182,9 @@ Proof.
     intros Hl. apply lin_complete_lemma in Hl.
     assert (H : match exec lin_wit_cfg (init lin_wit_cfg lin_wit_input) lin_wit_evs with
                 | Some s0 => linearizable_b (hist s0) | None => true end = false) by (vm_compute; reflexivity).
-    rewrite E in H. congruence.
+    rewrite E in H. clear E. rewrite Hl in H. discriminate H.
   - exfalso.
     assert (H : match exec lin_wit_cfg (init lin_wit_cfg lin_wit_input) lin_wit_evs with
                 | Some _ => true | None => false end = true) by (vm_compute; reflexivity).
-    rewrite E in H. discriminate.
+    rewrite E in H. discriminate H.
 Qed.
